@@ -122,15 +122,15 @@ def eval_solid(case):
             try:
                 S = P.minimal_centered_bounding_sphere
                 want = s * math.sqrt(B["far2"]) / B["den"]
-                if abs(S.radius - want) > 1e-9 * want or np.max(np.abs(np.asarray(S.centroid) - cen)) > 1e-9 * (size + far):
+                if abs(S.radius - want) > 1e-9 * want + 1e-14 * far or np.max(np.abs(np.asarray(S.centroid) - cen)) > 1e-9 * (size + far):
                     bad("minimal_centered_bounding_sphere", f"r = {float(S.radius)!r}, exact {want!r}; centre must be the centroid")
-                if abs(P.minimal_centered_bounding_sphere_radius - want) > 1e-9 * want:
+                if abs(P.minimal_centered_bounding_sphere_radius - want) > 1e-9 * want + 1e-14 * far:
                     bad("minimal_centered_bounding_sphere_radius", "radius getter differs from the exact value")
                 S = P.maximal_centered_bounded_sphere
                 want = s * float(ev(B["bounded"]))
-                if abs(S.radius - want) > 1e-9 * want or np.max(np.abs(np.asarray(S.centroid) - cen)) > 1e-9 * (size + far):
+                if abs(S.radius - want) > 1e-9 * want + 1e-14 * far or np.max(np.abs(np.asarray(S.centroid) - cen)) > 1e-9 * (size + far):
                     bad("maximal_centered_bounded_sphere", f"r = {float(S.radius)!r}, exact {want!r}; centre must be the centroid")
-                if abs(P.maximal_centered_bounded_sphere_radius - want) > 1e-9 * want:
+                if abs(P.maximal_centered_bounded_sphere_radius - want) > 1e-9 * want + 1e-14 * far:
                     bad("maximal_centered_bounded_sphere_radius", "radius getter differs from the exact value")
             except Exception as e:
                 bad("centered_spheres", f"raised {type(e).__name__}: {e}", ["raised"])
@@ -212,11 +212,11 @@ def eval_polygon(case):
             try:
                 C = P.minimal_centered_bounding_circle
                 want = s * math.sqrt(B["far2"]) / B["den"]
-                if abs(C.radius - want) > 1e-9 * want or np.max(np.abs(np.asarray(C.centroid) - cen)) > 1e-9 * (size + far):
+                if abs(C.radius - want) > 1e-9 * want + 1e-14 * far or np.max(np.abs(np.asarray(C.centroid) - cen)) > 1e-9 * (size + far):
                     bad("minimal_centered_bounding_circle", f"r = {float(C.radius)!r}, exact {want!r}; centre must be the centroid")
                 C = P.maximal_centered_bounded_circle
                 want = s * float(ev(B["inner"]))
-                if abs(C.radius - want) > 1e-9 * want or np.max(np.abs(np.asarray(C.centroid) - cen)) > 1e-9 * (size + far):
+                if abs(C.radius - want) > 1e-9 * want + 1e-14 * far or np.max(np.abs(np.asarray(C.centroid) - cen)) > 1e-9 * (size + far):
                     bad("maximal_centered_bounded_circle", f"r = {float(C.radius)!r}, exact {want!r}; centre must be the centroid")
             except Exception as e:
                 bad("centered_circles", f"raised {type(e).__name__}: {e}", ["raised"])
